@@ -53,6 +53,7 @@ type kindDef struct {
 	name   string
 	module string
 	all    bool
+	pick   func(c *chain) int // which validator sends a validator-signed kind (default 0)
 	signer func(c *chain, v int) *env.Account
 	base   func(c *chain, v int) sdk.Msg
 }
@@ -119,13 +120,15 @@ var kinds = []kindDef{
 			{ChainType: "evm", ChainReferenceID: chainB, Address: c.w.ethAddr[v].Hex(), Pubkey: c.w.ethAddr[v].Bytes(), Balance: "1000000", Traits: []string{valsettypes.PIGEON_TRAIT_MEV}}}}
 	}},
 	// ---- treasury ---------------------------------------------------------------------------------------
-	// the fee record of the validator that currently has to relay the oldest fee-paying message (or validator 0),
-	// sent by user 0: the message names the validator in a field, nothing ties it to the signer
-	{name: "UpsertRelayerFee", module: "treasury", signer: byUser(0), base: func(c *chain, v int) sdk.Msg {
-		t := c.pendingAssignee()
-		if t < 0 {
-			t = 0
-		}
+	// the fee record of the validator that currently has to relay the oldest fee-paying message (validator 0 if
+	// there is none), changed by that validator itself ...
+	{name: "UpsertRelayerFee", module: "treasury", signer: byVal, pick: func(c *chain) int { return max(c.pendingAssignee(), 0) }, base: func(c *chain, v int) sdk.Msg {
+		return &treasurytypes.MsgUpsertRelayerFee{Metadata: metaOf(c.valAcc(v)), FeeSetting: &treasurytypes.RelayerFeeSetting{ValAddress: c.val(v).ValAddr.String(),
+			Fees: []treasurytypes.RelayerFeeSetting_FeeSetting{{ChainReferenceId: chainA, Multiplicator: dec("1.5")}, {ChainReferenceId: chainB, Multiplicator: dec("1.5")}}}}
+	}},
+	// ... and by somebody else (user 0): the message names the validator in a field
+	{name: "UpsertRelayerFee/other", module: "treasury", signer: byUser(0), base: func(c *chain, v int) sdk.Msg {
+		t := max(c.pendingAssignee(), 0)
 		return &treasurytypes.MsgUpsertRelayerFee{Metadata: metaOf(c.user(0)), FeeSetting: &treasurytypes.RelayerFeeSetting{ValAddress: c.val(t).ValAddr.String(),
 			Fees: []treasurytypes.RelayerFeeSetting_FeeSetting{{ChainReferenceId: chainA, Multiplicator: dec("1.5")}, {ChainReferenceId: chainB, Multiplicator: dec("1.5")}}}}
 	}},
@@ -187,7 +190,7 @@ var kinds = []kindDef{
 		must(err)
 		return &consensustypes.MsgAddEvidence{Metadata: metaOf(c.valAcc(v)), MessageID: idOf(m, 1), QueueTypeName: q, Proof: p}
 	}},
-	{name: "SetPublicAccessData", module: "consensus", signer: byVal, base: func(c *chain, v int) sdk.Msg {
+	{name: "SetPublicAccessData", module: "consensus", signer: byVal, pick: relayerOf, base: func(c *chain, v int) sdk.Msg {
 		q := turnstoneQueue(chainA)
 		m := firstOf(c.e.App.ConsensusKeeper.GetMessagesForRelaying(c.ctx(), q, c.val(v).ValAddr))
 		if m == nil {
@@ -199,7 +202,7 @@ var kinds = []kindDef{
 		}
 		return &consensustypes.MsgSetPublicAccessData{Metadata: metaOf(c.valAcc(v)), MessageID: idOf(m, 1), QueueTypeName: q, Data: crypto.Keccak256([]byte("tx")), ValsetID: snapID}
 	}},
-	{name: "SetErrorData", module: "consensus", signer: byVal, base: func(c *chain, v int) sdk.Msg {
+	{name: "SetErrorData", module: "consensus", signer: byVal, pick: relayerOf, base: func(c *chain, v int) sdk.Msg {
 		q := turnstoneQueue(chainA)
 		m := firstOf(c.e.App.ConsensusKeeper.GetMessagesForRelaying(c.ctx(), q, c.val(v).ValAddr))
 		if m == nil {
@@ -325,6 +328,16 @@ var kinds = []kindDef{
 	{name: "TokenFactoryUpdateParams", module: "tokenfactory", signer: byUser(0), base: func(c *chain, v int) sdk.Msg {
 		return &tftypes.MsgUpdateParams{Metadata: metaOf(c.user(0)), Authority: govAddr(), Params: tftypes.Params{DenomCreationFee: sdk.NewCoins(sdk.NewInt64Coin(env.BondDenom, 10_000_000))}}
 	}},
+}
+
+// relayerOf: the validator that has something to relay on chain A (validator 0 otherwise)
+func relayerOf(c *chain) int {
+	for v := 0; v < nVals; v++ {
+		if ms, err := c.e.App.ConsensusKeeper.GetMessagesForRelaying(c.ctx(), turnstoneQueue(chainA), c.val(v).ValAddr); err == nil && len(ms) > 0 {
+			return v
+		}
+	}
+	return 0
 }
 
 func estimateBase(c *chain, v int) sdk.Msg {
@@ -823,14 +836,8 @@ func (c *chain) hostile(kind, param, class string) (txs [][]byte, err error) {
 	vs := []int{0}
 	if k.all {
 		vs = []int{0, 1, 2, 3}
-	} else if kind == "SetPublicAccessData" || kind == "SetErrorData" {
-		// the message a relayer sends: by the validator that has something to relay (validator 0 otherwise)
-		for v := 0; v < nVals; v++ {
-			if ms, err := c.e.App.ConsensusKeeper.GetMessagesForRelaying(c.ctx(), turnstoneQueue(chainA), c.val(v).ValAddr); err == nil && len(ms) > 0 {
-				vs = []int{v}
-				break
-			}
-		}
+	} else if k.pick != nil {
+		vs = []int{k.pick(c)}
 	}
 	for _, v := range vs {
 		m := k.base(c, v)
